@@ -34,7 +34,10 @@ def _proj_c05(ev, o):
 
 _MODELS = [
     dict(name="routine", pkg="./routinex", test="TestRoutine", coq_mod="Routine.Spec", run_check="run_check_routine",
-         corpus="routine", project={"C04": _proj_c04, "C05": _proj_c05}, quick_n=1500, thorough_n=150000, nontrivial=nt_len(10), rule=_RULE),
+         corpus="routine", project={"C04": _proj_c04, "C05": _proj_c05}, quick_n=1500, thorough_n=150000, nontrivial=nt_len(10), rule=_RULE,
+         # the same correspondence in the free-running regime (real scheduler; C05: "also when the calls are issued concurrently
+         # from several goroutines"), in every check of C04 / C05: harness/routinex/free_test.go
+         free_search=dict(test="TestRoutineFree", props={"C04": [5], "C05": [6]}), free_always=True),
 ]
 # backoff part of C14: Backoff.Construct (/repo/backoff/backoff.go) + the vendor algorithm it configures
 _BACKOFF_COQ = ["Backoff/Model.v", "Backoff/Spec.v", "Backoff/Proofs.v", "Backoff/Props_C14_backoff.v"]
